@@ -544,7 +544,7 @@ def check_history(params, ctx):
 def run(ctx):
     global CTX
     CTX = ctx
-    n = ctx.budget(quick=55, thorough=250)
+    n = ctx.budget(quick=40, thorough=220)
     from hypothesis import settings, HealthCheck, Phase
     st_ = settings(max_examples=n, stateful_step_count=18, database=None, deadline=None, derandomize=False,
                    report_multiple_bugs=False, suppress_health_check=list(HealthCheck),
